@@ -375,6 +375,13 @@ func c04Cases(t *testing.T, th bool) []c04Case {
 		}
 		cs = append(cs, c04Case{Leg: "hash", In: hex.EncodeToString(s), Tag: "32-byte"})
 	}
+	// messages whose digest needs many x candidates before x^3+3 is a square (found by an
+	// offline search over "c04-hard-<k>", k < 2e6; the number of candidates is re-measured
+	// by the loop hook on every run and reported as hash.x_candidates_tried.*): 13 … 23
+	// increments. A try-and-increment loop with any small fixed cap fails on these.
+	for _, k := range []int{1483, 39262, 32658, 57365, 60040, 140122, 1087473, 1109922, 1804789} {
+		cs = append(cs, c04Case{Leg: "hash", In: hex.EncodeToString([]byte(fmt.Sprintf("c04-hard-%d", k))), Tag: "many-candidates"})
+	}
 	return cs
 }
 
@@ -720,8 +727,10 @@ func (h *c04Run) hash(c c04Case, m []byte) {
 		h.r.Outcome("hash:" + end)
 		return
 	}
-	if loops > 8 {
-		h.r.Add("hash.x_candidates_tried.9+", 1)
+	if loops > 16 {
+		h.r.Add("hash.x_candidates_tried.17+", 1)
+	} else if loops > 8 {
+		h.r.Add("hash.x_candidates_tried.9-16", 1)
 	} else {
 		h.r.Add(fmt.Sprintf("hash.x_candidates_tried.%d", loops), 1)
 	}
